@@ -708,7 +708,40 @@ func Mutate(r *core.Rand, c Case, other []byte) ([]byte, string) {
 	if len(b) == 0 {
 		return r.Bytes(1 + r.Pick(8)), "random"
 	}
-	switch r.Pick(12) {
+	switch r.Pick(13) {
+	case 12: // a whole key-sized field := an extreme value (all zero, one, all ones, top bit only)
+		// aligned with the 384-byte key block at the start of every identity-carrying structure
+		// (ElGamal / X25519 slot, DSA / ECDSA / Ed25519 slots), else anywhere
+		regions := [][2]int{{0, 256}, {0, 32}, {256, 384}, {352, 384}, {320, 384}, {288, 384}}
+		rg := regions[r.Pick(len(regions))]
+		if len(b) < 384 || r.Chance(1, 5) {
+			n := []int{16, 20, 32, 40, 64, 96, 128, 256}[r.Pick(8)]
+			if n > len(b) {
+				n = len(b)
+			}
+			st := r.Pick(len(b) - n + 1)
+			rg = [2]int{st, st + n}
+		}
+		pat := r.Pick(5)
+		for i := rg[0]; i < rg[1]; i++ {
+			switch pat {
+			case 0, 1:
+				b[i] = 0
+			case 2, 3:
+				b[i] = 0xff
+			default:
+				b[i] = 0
+			}
+		}
+		switch pat {
+		case 1:
+			b[rg[1]-1] = 1
+		case 3:
+			b[rg[1]-1] = 0xfe
+		case 4:
+			b[rg[0]] = 0x80
+		}
+		return b, "key-field-extreme"
 	case 0, 1, 2: // control field := boundary value
 		if len(c.Ctrl) > 0 {
 			p := c.Ctrl[r.Pick(len(c.Ctrl))]
